@@ -262,6 +262,20 @@ func runC17(c *core.Ctx, ck *Check) {
 			for _, bp := range []string{"", " ", "not-a-version", "*", "|", probe + "|", "\x00" + probe, probe + "\xff", "..", "vers:" + probe} {
 				check(base, bp, "bad-probe")
 			}
+			// a probe that becomes a LISTED version when its blanks are removed (one blank inside the text of a constraint
+			// version): the probe is validated as given, whatever the constraints say
+			for x := 0; x < k; x++ {
+				_, v := splitVersCons(parts[x])
+				if len(v) < 2 {
+					continue
+				}
+				at := 1 + r.IntN(len(v)-1)
+				for _, bl := range []string{" ", "\t", "  "} {
+					check(base, v[:at]+bl+v[at:], "probe-with-inner-blank")
+					check("vers:"+j.scheme+"/="+v+"|="+probe, v[:at]+bl+v[at:], "probe-with-inner-blank")
+					check("vers:"+j.scheme+"/!="+v+"|>="+probe, v[:at]+bl+v[at:], "probe-with-inner-blank")
+				}
+			}
 			// a whole constraint slot (or the text next to a comparator) made only of characters that TrimSpace /
 			// unicode.IsSpace treat as blank but that are not the ASCII space: two edits at once (a separator and the
 			// character), which single-point corruption never produces
